@@ -138,6 +138,11 @@ def loop_mode(out_free, out_merge, seed, ntr):
         masses = None
         lattice = policy == "merge"
         sim = build(shape, mode, ks, rng, extra_far=rng.randrange(3))
+        hybrid = None
+        if mode in ("direct", "line") and (t // 3) % 4 == 1:
+            # the hybrid integrators force the order-preserving removal, whatever the user's flag says
+            hybrid = ["mercurius", "trace"][(t // 12) % 2]
+            sim.integrator = hybrid
         if lattice:
             # integer lattice for exact accounting: coordinates multiples of 1/8, masses powers of two with power-of-two sums per merger
             for i in range(sim.N):
@@ -207,7 +212,9 @@ def loop_mode(out_free, out_merge, seed, ntr):
                 return -18 if x <= 1e-18 else int(math.floor(math.log10(x)))
             ev[-1]["bounce"] = [1 if sep else 0, dec(dp), dec(de)]
         ev.append({"e": "end"})
-        tr = {"ks": hdr["ks"], "tree": hdr["tree"], "arr": arr, "pend": found["pend"], "events": ev, "shape": shape, "mode": mode,
+        if hybrid and not hdr["ks"]:
+            ev.insert(0, {"e": "resolve", "i": -1, "p1": -1, "p2": -1, "out": -98, "pend": [], "arr": [], "nan": [], "id1": -1, "id2": -1, "tot": [], "bounce": []})
+        tr = {"ks": hdr["ks"] or bool(hybrid), "hybrid": hybrid or "", "tree": hdr["tree"], "arr": arr, "pend": found["pend"], "events": ev, "shape": shape, "mode": mode,
               "policy": policy, "tot0": [int(round(x * 64)) for x in tot0] if policy == "merge" else [], "rand_seed": int(sim.rand_seed),
               "ids0": ids0}
         (fm if policy == "merge" else ff).write(json.dumps(tr) + "\n")
@@ -343,8 +350,60 @@ def cluster_mode(outfile, seed, ntrials):
                     res["violations"].append({"mode": mode, "order": order, "missed": miss[:4], "spurious": extra[:4],
                                               "radii": [[ps[i][6] for i in m] for m in miss[:4]], "seed": seed, "trial": trial})
                 del sim
+    dense_blobs(res, rng, max(4, ntrials // 2))
     bounce_rows(res)
     json.dump(res, open(outfile, "w"))
+
+
+def dense_blobs(res, rng, ntrials):
+    """clusters of simultaneous overlaps: blobs of 4..9 spheres that all overlap each other and contract.  The point searches must hand
+    every overlapping, approaching pair to the resolver -- a particle with several partners reports all of them, not only its nearest"""
+    found = []
+
+    def resolver(sp, c):
+        found.append((c.p1, c.p2))
+        return 0
+    for trial in range(ntrials):
+        parts = []
+        for b in range(4):
+            c = (-20.0 + 13.0 * b + rng.uniform(-1, 1), rng.uniform(-20, 20), rng.uniform(-20, 20))
+            rad = rng.choice([1.0, 0.5, 2.0])
+            for k in range(rng.randint(4, 9)):
+                while True:
+                    d = [rng.uniform(-0.6, 0.6) * rad for _ in range(3)]
+                    if sum(x * x for x in d) <= (0.6 * rad) ** 2:
+                        break
+                parts.append((c[0] + d[0], c[1] + d[1], c[2] + d[2], -0.3 * d[0], -0.3 * d[1], -0.3 * d[2], rad * rng.choice([1.0, 1.0, 0.7])))
+        rng.shuffle(parts)
+        want = set()
+        for i in range(len(parts)):
+            for j in range(i + 1, len(parts)):
+                a, b2 = parts[i], parts[j]
+                dx = [a[q] - b2[q] for q in range(3)]
+                dv = [a[q + 3] - b2[q + 3] for q in range(3)]
+                if sum(x * x for x in dx) < (a[6] + b2[6]) ** 2 and sum(x * y for x, y in zip(dx, dv)) < 0:
+                    want.add(frozenset((i, j)))
+        for mode in ("direct", "tree"):
+            sim = rebound.Simulation()
+            sim.integrator = "none"
+            sim.gravity = "none"
+            sim.configure_box(64.0)
+            sim.dt = 0.01
+            sim.collision = mode
+            sim.collision_resolve = resolver
+            for t in parts:
+                sim.add(m=1.0, x=t[0], y=t[1], z=t[2], vx=t[3], vy=t[4], vz=t[5], r=t[6])
+            del found[:]
+            clibrebound.reb_collision_search(ctypes.byref(sim))
+            got = {frozenset(p) for p in found}
+            res["trials"] += 1
+            res["pairs"] += len(want)
+            if got != want and len(res["violations"]) < 10:
+                miss = sorted(tuple(sorted(x)) for x in want - got)
+                extra = sorted(tuple(sorted(x)) for x in got - want)
+                res["violations"].append({"mode": mode, "order": "dense blobs (%d of %d pairs reported)" % (len(got & want), len(want)), "missed": miss[:4], "spurious": extra[:4],
+                                          "radii": [[parts[i][6] for i in m] for m in miss[:4]], "seed": -1, "trial": trial})
+            del sim
 
 
 def bounce_rows(res):
